@@ -1092,6 +1092,678 @@ fn sweep_case(ctx: &mut Ctx, base: &SPDC, o: &SPDC, detail: &str) {
   ctx.k("sweep", &args, outs.trim());
 }
 
+
+// ------------------------------------------------------------------------------------------------
+// S/K: setups that are NOT in the state a configuration produces — edited in place through the public fields and
+// mutators (interaction type switched, a beam's polarization flipped, beams retuned / re-aimed, poling switched,
+// signal and idler swapped, an optimum edited and optimised again) — as inputs of try_as_optimum
+// ------------------------------------------------------------------------------------------------
+
+fn flip(p: PolarizationType) -> PolarizationType {
+  match p {
+    PolarizationType::Ordinary => PolarizationType::Extraordinary,
+    PolarizationType::Extraordinary => PolarizationType::Ordinary,
+  }
+}
+
+fn pm_from_index(i: usize) -> PMType {
+  match i % PM_TYPES.len() {
+    0 => PMType::Type0_o_oo,
+    1 => PMType::Type0_e_ee,
+    2 => PMType::Type1_e_oo,
+    3 => PMType::Type2_e_eo,
+    _ => PMType::Type2_e_oe,
+  }
+}
+
+/// one edit of a copy of `e` (a panic inside a mutator = no edit); the run's random state moves on either way
+fn try_edit(ctx: &mut Ctx, e: &SPDC, class: usize) -> Option<(SPDC, String)> {
+  let mut rr = Rng(ctx.rng.0);
+  let res = guard(|| {
+    let mut c = e.clone();
+    let n = edit_setup(&mut rr, &mut c, class);
+    (c, n)
+  });
+  ctx.rng = Rng(rr.0);
+  ctx.rng.next();
+  res
+}
+
+/// in-place edits of an existing setup through the public API; `class` 0 = interaction type / polarizations (beams
+/// inconsistent with pm_type afterwards), 1 = the other public mutators.  Returns the edit's name (replayable).
+fn edit_setup(r: &mut Rng, s: &mut SPDC, class: usize) -> String {
+  if class == 0 {
+    match r.below(6) {
+      0 | 1 | 2 => {
+        // another interaction type, the beams keep their polarizations
+        let cur = pm_index(&s.crystal_setup.pm_type);
+        let k = (cur + 1 + r.below(PM_TYPES.len() - 1)) % PM_TYPES.len();
+        s.crystal_setup.pm_type = pm_from_index(k);
+        format!("pm_type={}", PM_TYPES[k])
+      }
+      3 => {
+        let p = flip(s.idler.polarization());
+        s.idler.set_polarization(p);
+        format!("idler.set_polarization({})", pol_tok(p))
+      }
+      4 => {
+        let p = flip(s.signal.polarization());
+        s.signal.set_polarization(p);
+        format!("signal.set_polarization({})", pol_tok(p))
+      }
+      _ => {
+        let p = flip(s.pump.polarization());
+        s.pump.set_polarization(p);
+        format!("pump.set_polarization({})", pol_tok(p))
+      }
+    }
+  } else {
+    match r.below(10) {
+      0 => {
+        let f = round_to(r.range(0.97, 1.03), 4);
+        let l = s.idler.vacuum_wavelength() * f;
+        s.idler.set_vacuum_wavelength(l);
+        format!("idler.wavelength*={}", f)
+      }
+      1 => {
+        let (ph, th) = (round_to(r.range(0.0, 360.0), 1), round_to(r.range(0.0, 4.0), 2));
+        s.idler.set_angles(ph * DEG, th * DEG);
+        format!("idler.set_angles({},{})", ph, th)
+      }
+      2 => {
+        let te = round_to(r.range(0.2, 5.0), 2);
+        let cs = s.crystal_setup.clone();
+        s.signal.set_theta_external(te * DEG, &cs);
+        format!("signal.set_theta_external({})", te)
+      }
+      3 => {
+        let t = round_to(r.range(0.0, 90.0), 2);
+        s.crystal_setup.theta = t * DEG;
+        format!("crystal.theta={}", t)
+      }
+      4 => {
+        let (ph, t) = (round_to(r.range(0.0, 90.0), 1), round_to(r.range(20.0, 150.0), 1));
+        s.crystal_setup.phi = ph * DEG;
+        s.crystal_setup.temperature = spdcalc::utils::from_celsius_to_kelvin(t);
+        format!("crystal.phi={},temperature_c={}", ph, t)
+      }
+      5 => match &s.pp {
+        PeriodicPoling::Off => {
+          let p = round_to(r.log_range(3.0, 200.0), 2);
+          s.pp = PeriodicPoling::new(p * 1e-6 * M, Apodization::Off);
+          format!("pp=on({})", p)
+        }
+        _ => {
+          s.pp = PeriodicPoling::Off;
+          "pp=off".to_string()
+        }
+      },
+      6 => {
+        *s = s.clone().with_swapped_signal_idler();
+        "with_swapped_signal_idler".to_string()
+      }
+      7 => {
+        let (a, b) = (round_to(r.range(-8000.0, 0.0), 1), round_to(r.range(-8000.0, 0.0), 1));
+        s.signal_waist_position = a * 1e-6 * M;
+        s.idler_waist_position = b * 1e-6 * M;
+        format!("waist_positions_um=({},{})", a, b)
+      }
+      8 => {
+        let f = round_to(r.range(0.98, 1.02), 4);
+        let l = s.signal.vacuum_wavelength() * f;
+        s.signal.set_vacuum_wavelength(l);
+        format!("signal.wavelength*={}", f)
+      }
+      _ => {
+        if !matches!(s.pp, PeriodicPoling::Off) {
+          let p = round_to(r.log_range(3.0, 200.0), 2);
+          s.assign_poling_period(p * 1e-6 * M);
+          format!("assign_poling_period({})", p)
+        } else {
+          let w = round_to(r.log_range(20.0, 500.0), 1);
+          s.idler.set_waist(w * 1e-6 * M);
+          format!("idler.set_waist({})", w)
+        }
+      }
+    }
+  }
+}
+
+/// "optimum idler, auto-calculated crystal angle or poling period, automatic waist positions": the optimised setup
+/// carries the automatic quantities OF ITS OWN beams, crystal and poling (each recomputed through the public
+/// single-purpose routines on the result itself)
+fn auto_case(ctx: &mut Ctx, o: &SPDC, detail: &str) {
+  let r = guard(|| {
+    let mut bad: Vec<String> = Vec::new();
+    let b = |x: f64| x.to_bits();
+    let auto = o.clone().with_optimal_waist_positions();
+    if b(auto.signal_waist_position.value_unsafe) != b(o.signal_waist_position.value_unsafe) {
+      bad.push(format!("signal_waist_position:{:e}!={:e}", o.signal_waist_position.value_unsafe, auto.signal_waist_position.value_unsafe));
+    }
+    if b(auto.idler_waist_position.value_unsafe) != b(o.idler_waist_position.value_unsafe) {
+      bad.push(format!("idler_waist_position:{:e}!={:e}", o.idler_waist_position.value_unsafe, auto.idler_waist_position.value_unsafe));
+    }
+    let zs = o.crystal_setup.optimal_waist_position(o.signal.vacuum_wavelength(), o.signal.polarization());
+    let zi = o.crystal_setup.optimal_waist_position(o.idler.vacuum_wavelength(), o.idler.polarization());
+    if b(zs.value_unsafe) != b(o.signal_waist_position.value_unsafe) || b(zi.value_unsafe) != b(o.idler_waist_position.value_unsafe) {
+      bad.push("optimal_waist_position-of-own-beams".to_string());
+    }
+    match o.optimum_idler() {
+      Ok(mut i) => {
+        i.set_waist(o.idler.waist());
+        if beam_tokens(&i) != beam_tokens(&o.idler) {
+          bad.push("idler-is-not-optimum_idler".to_string());
+        }
+      }
+      Err(_) => bad.push("optimum_idler-err".to_string()),
+    }
+    if o.idler.polarization() != o.crystal_setup.pm_type.idler_polarization() {
+      bad.push("idler-polarization-not-that-of-pm_type".to_string());
+    }
+    match &o.pp {
+      PeriodicPoling::Off => {
+        let t = o.optimum_crystal_theta();
+        if b(t.value_unsafe) != b(o.crystal_setup.theta.value_unsafe) {
+          bad.push(format!("crystal.theta:{:e}!={:e}", o.crystal_setup.theta.value_unsafe, t.value_unsafe));
+        }
+      }
+      _ => match o.optimum_periodic_poling() {
+        Ok(pp) => {
+          if pp_tokens(&pp) != pp_tokens(&o.pp) {
+            bad.push("pp-is-not-optimum_periodic_poling".to_string());
+          }
+        }
+        Err(_) => bad.push("optimum_periodic_poling-err".to_string()),
+      },
+    }
+    bad
+  });
+  let (ok, why) = match r {
+    None => (false, "panic".to_string()),
+    Some(b) if b.is_empty() => (true, "-".to_string()),
+    Some(b) => (false, b.join("+")),
+  };
+  let sig = if ok {
+    "auto/ok".to_string()
+  } else {
+    format!("auto/{}", why.split('+').next().unwrap().split(':').next().unwrap())
+  };
+  ctx.s("C20.auto", ok, &sig, &format!("{} why={}", detail, why));
+}
+
+/// centre = 1 of an optimised setup (one integrator, no other accessor): cheap enough for every edited setup
+fn centre_case(ctx: &mut Ctx, o: &SPDC, detail: &str) {
+  let (integ, iname) = gen_integrator(&mut ctx.rng);
+  let (w0s, w0i) = (o.signal.frequency(), o.idler.frequency());
+  let r = guard(|| {
+    let jo = o.joint_spectrum(integ);
+    let ra = jo.jsa(w0s, w0i).norm();
+    let rs = *(jo.jsi_singles(w0s, w0i) / spdcalc::JSIUnits::new(1.));
+    (ra, rs, jo.jsi_normalized(w0s, w0i), jo.jsa_normalized(w0s, w0i).norm(), jo.jsi_singles_normalized(w0s, w0i))
+  });
+  match r {
+    None => ctx.count("skip/joint-spectrum-panic"),
+    Some((ra, rs, cj, ca, csn)) => {
+      if !(ra.is_finite() && ra > 0.0 && (ra * ra).is_normal() && rs.is_finite() && rs > 0.0) {
+        ctx.count("skip/reference-zero-or-nonfinite");
+        return;
+      }
+      let ok = (cj - 1.0).abs() <= 1e-9 && (ca - 1.0).abs() <= 1e-9 && (csn - 1.0).abs() <= 1e-9;
+      ctx.s(
+        "C20.centre",
+        ok,
+        if ok { "centre/ok" } else { "centre/not-one" },
+        &format!("{} integ={} jsi_n={:e} abs_jsa_n={:e} singles_n={:e}", detail, iname, cj, ca, csn),
+      );
+    }
+  }
+}
+
+/// one edited setup through the wiring case, idempotence / kept, automatic quantities and centre = 1
+fn edited_case(ctx: &mut Ctx, base: &SPDC, o_base: &SPDC, detail: &str) {
+  // (a) the setup itself edited; (b) its OPTIMUM edited and optimised again; class 0 (polarizations / type) always,
+  // class 1 (other mutators) on top of it half of the time
+  for which in 0..2 {
+    let mut e = if which == 0 { base.clone() } else { o_base.clone() };
+    let mut names: Vec<String> = Vec::new();
+    let class = if which == 0 { 0 } else { ctx.rng.below(2) };
+    match try_edit(ctx, &e, class) {
+      Some((c, n)) => {
+        e = c;
+        names.push(n);
+      }
+      None => {
+        ctx.count("skip/edit-panic");
+        continue;
+      }
+    }
+    if ctx.rng.coin() {
+      let class = ctx.rng.below(2);
+      match try_edit(ctx, &e, class) {
+        Some((c, n)) => {
+          e = c;
+          names.push(n);
+        }
+        None => ctx.count("skip/edit-panic"),
+      }
+    }
+    if e.crystal_setup.counter_propagation && matches!(e.pp, PeriodicPoling::Off) {
+      ctx.count("skip/counter-propagation-without-poling");
+      continue;
+    }
+    let incons = e.signal.polarization() != e.crystal_setup.pm_type.signal_polarization()
+      || e.idler.polarization() != e.crystal_setup.pm_type.idler_polarization()
+      || e.pump.polarization() != e.crystal_setup.pm_type.pump_polarization();
+    ctx.count(&format!("edited/{}/{}", if which == 0 { "setup" } else { "optimum" }, if incons { "polarizations-inconsistent-with-pm_type" } else { "consistent" }));
+    if e.idler.polarization() != e.crystal_setup.pm_type.idler_polarization() {
+      ctx.count("edited/idler-polarization-differs-from-pm_type");
+    }
+    let d = format!("{} start={} edits={}", detail, if which == 0 { "setup" } else { "optimum" }, names.join(";").replace(' ', ""));
+    opt_case(ctx, &e);
+    if let Some(o) = idem_case(ctx, &e, &d) {
+      auto_case(ctx, &o, &d);
+      centre_case(ctx, &o, &d);
+    }
+  }
+}
+
+// ------------------------------------------------------------------------------------------------
+// S/K: sweeps over INTERACTING property pairs (a setter that reads what the other axis sweeps), both orders, and
+// sweeps built from user closures (absolute and relative): each cell against raw / reference, against a 1x1 sweep
+// of that cell, and against a setup built individually from a fresh clone of the base
+// ------------------------------------------------------------------------------------------------
+
+#[derive(Clone, Copy, Debug, PartialEq)]
+enum Axis {
+  /// a named path of SPDCIter::try_new
+  Path(&'static str),
+  /// user closures for SPDCIter::new that read the setup they are given (relative steps)
+  RelCrystalTheta,
+  RelSignalWavelength,
+  RelSignalWaist,
+  RelLength,
+}
+
+impl Axis {
+  fn name(&self) -> String {
+    match self {
+      Axis::Path(p) => p.to_string(),
+      Axis::RelCrystalTheta => "closure:crystal.theta+=v_deg".into(),
+      Axis::RelSignalWavelength => "closure:signal.wavelength*=1+v".into(),
+      Axis::RelSignalWaist => "closure:signal.waist*=v".into(),
+      Axis::RelLength => "closure:crystal.length*=v".into(),
+    }
+  }
+}
+
+/// what each named path means, written out against the public fields and mutators (the harness's own reading of the
+/// configuration paths; units as in the JSON configuration)
+fn apply_axis(a: Axis, s: &mut SPDC, v: f64) {
+  let um = 1e-6 * M;
+  let nm = 1e-9 * M;
+  let thz = |v: f64| spdcalc::TWO_PI * v * 1e12 * RAD / S;
+  match a {
+    Axis::RelCrystalTheta => s.crystal_setup.theta = s.crystal_setup.theta + v * DEG,
+    Axis::RelSignalWavelength => {
+      let l = s.signal.vacuum_wavelength() * (1.0 + v);
+      s.signal.set_vacuum_wavelength(l);
+    }
+    Axis::RelSignalWaist => {
+      let w = s.signal.waist().x * v;
+      s.signal.set_waist(w);
+    }
+    Axis::RelLength => s.crystal_setup.length = s.crystal_setup.length * v,
+    Axis::Path(p) => match p {
+      "crystal.phi_deg" => s.crystal_setup.phi = v * DEG,
+      "crystal.theta_deg" => s.crystal_setup.theta = v * DEG,
+      "crystal.length_um" => s.crystal_setup.length = v * um,
+      "crystal.temperature_c" => s.crystal_setup.temperature = spdcalc::utils::from_celsius_to_kelvin(v),
+      "signal.theta_deg" => {
+        s.signal.set_theta_internal(v * DEG);
+      }
+      "signal.theta_external_deg" => {
+        let cs = s.crystal_setup.clone();
+        s.signal.set_theta_external(v * DEG, &cs);
+      }
+      "signal.phi_deg" => {
+        s.signal.set_phi(v * DEG);
+      }
+      "signal.frequency_thz" => {
+        s.signal.set_frequency(thz(v));
+      }
+      "signal.wavelength_nm" => {
+        s.signal.set_vacuum_wavelength(v * nm);
+      }
+      "signal.waist_um" => {
+        s.signal.set_waist(v * um);
+      }
+      "signal.waist_position_um" => s.signal_waist_position = v * um,
+      "idler.theta_deg" => {
+        s.idler.set_theta_internal(v * DEG);
+      }
+      "idler.theta_external_deg" => {
+        let cs = s.crystal_setup.clone();
+        s.idler.set_theta_external(v * DEG, &cs);
+      }
+      "idler.phi_deg" => {
+        s.idler.set_phi(v * DEG);
+      }
+      "idler.frequency_thz" => {
+        s.idler.set_frequency(thz(v));
+      }
+      "idler.wavelength_nm" => {
+        s.idler.set_vacuum_wavelength(v * nm);
+      }
+      "idler.waist_um" => {
+        s.idler.set_waist(v * um);
+      }
+      "idler.waist_position_um" => s.idler_waist_position = v * um,
+      "pump.frequency_thz" => {
+        s.pump.set_frequency(thz(v));
+      }
+      "pump.wavelength_nm" => {
+        s.pump.set_vacuum_wavelength(v * nm);
+      }
+      "pump.waist_um" => {
+        s.pump.set_waist(v * um);
+      }
+      "pump.average_power_mw" => s.pump_average_power = v * 1e-3 * spdcalc::dim::ucum::W,
+      "pump.bandwidth_nm" => s.pump_bandwidth = v * nm,
+      "periodic_poling.poling_period_um" => {
+        s.assign_poling_period(v * um);
+      }
+      "deff_pm_per_volt" => s.deff = v * 1e-12 * M / spdcalc::dim::ucum::V,
+      _ => panic!("unknown path {}", p),
+    },
+  }
+}
+
+const ALL_PATHS: &[&str] = &[
+  "crystal.phi_deg",
+  "crystal.theta_deg",
+  "crystal.length_um",
+  "crystal.temperature_c",
+  "signal.theta_deg",
+  "signal.theta_external_deg",
+  "signal.phi_deg",
+  "signal.frequency_thz",
+  "signal.wavelength_nm",
+  "signal.waist_um",
+  "signal.waist_position_um",
+  "idler.theta_deg",
+  "idler.theta_external_deg",
+  "idler.phi_deg",
+  "idler.frequency_thz",
+  "idler.wavelength_nm",
+  "idler.waist_um",
+  "idler.waist_position_um",
+  "pump.frequency_thz",
+  "pump.wavelength_nm",
+  "pump.waist_um",
+  "pump.average_power_mw",
+  "pump.bandwidth_nm",
+  "periodic_poling.poling_period_um",
+  "deff_pm_per_volt",
+];
+
+/// (reader, what its setter reads)
+fn reads(reader: &str) -> Vec<&'static str> {
+  match reader {
+    "signal.theta_external_deg" => vec!["crystal.theta_deg", "crystal.phi_deg", "crystal.temperature_c", "signal.wavelength_nm", "signal.frequency_thz", "signal.phi_deg"],
+    "idler.theta_external_deg" => vec!["crystal.theta_deg", "crystal.phi_deg", "crystal.temperature_c", "idler.wavelength_nm", "idler.frequency_thz", "idler.phi_deg"],
+    _ => vec![
+      "crystal.theta_deg",
+      "crystal.phi_deg",
+      "crystal.temperature_c",
+      "signal.wavelength_nm",
+      "signal.frequency_thz",
+      "signal.theta_deg",
+      "signal.theta_external_deg",
+      "signal.phi_deg",
+      "pump.wavelength_nm",
+      "pump.frequency_thz",
+    ],
+  }
+}
+
+/// a range (lo, hi) for one axis: near the base setup's own value (so that the swept cells keep a non-negligible
+/// intensity), `wide` = anywhere in the property's domain
+fn axis_range(r: &mut Rng, a: Axis, s: &SPDC, wide: bool) -> (f64, f64) {
+  let two = |r: &mut Rng, lo: f64, hi: f64| (r.range(lo, hi), r.range(lo, hi));
+  let around = |r: &mut Rng, c: f64, d: f64| (c - d * r.range(0.1, 1.0), c + d * r.range(0.1, 1.0));
+  let scaled = |r: &mut Rng, c: f64, lo: f64, hi: f64| (c * r.range(lo, 1.0), c * r.range(1.0, hi));
+  let lp = s.pump.vacuum_wavelength().value_unsafe;
+  // relative spectral width of the pump (the centre frequencies may move by a fraction of it)
+  let bw = (s.pump_bandwidth.value_unsafe / lp).abs().min(0.02);
+  let thz_of = |f: Frequency| fr(f) / (2.0 * std::f64::consts::PI) / 1e12;
+  match a {
+    Axis::RelCrystalTheta => two(r, -1.0, 1.0),
+    Axis::RelSignalWavelength => two(r, -bw, bw),
+    Axis::RelSignalWaist => two(r, 0.5, 2.0),
+    Axis::RelLength => two(r, 0.5, 1.5),
+    Axis::Path(p) => {
+      let field = p.split('.').last().unwrap();
+      let beam: Option<&Beam> = if p.starts_with("signal.") {
+        Some(&s.signal)
+      } else if p.starts_with("idler.") {
+        Some(&s.idler)
+      } else if p.starts_with("pump.") {
+        Some(&s.pump)
+      } else {
+        None
+      };
+      match (p, field) {
+        ("crystal.theta_deg", _) => {
+          if wide { two(r, 0.0, 90.0) } else { around(r, *(s.crystal_setup.theta / DEG), 1.5) }
+        }
+        ("crystal.phi_deg", _) => {
+          if wide { two(r, 0.0, 90.0) } else { around(r, *(s.crystal_setup.phi / DEG), 10.0) }
+        }
+        ("crystal.length_um", _) => scaled(r, s.crystal_setup.length.value_unsafe * 1e6, 0.6, 1.5),
+        ("crystal.temperature_c", _) => {
+          let c = s.crystal_setup.temperature.value_unsafe - 273.15;
+          if wide { two(r, 20.0, 150.0) } else { (c + r.range(0.0, 10.0), c + r.range(10.0, 60.0)) }
+        }
+        (_, "theta_deg") => two(r, 0.1, 3.0),
+        // never 0: at normal incidence Snell's law does not see the crystal
+        (_, "theta_external_deg") => two(r, 0.2, 5.0),
+        (_, "phi_deg") => two(r, 0.0, 360.0),
+        (_, "frequency_thz") => {
+          let c = thz_of(beam.unwrap().frequency());
+          let d = if wide { 0.05 } else { bw * 0.5 };
+          around(r, c, c * d)
+        }
+        (_, "wavelength_nm") => {
+          let c = beam.unwrap().vacuum_wavelength().value_unsafe * 1e9;
+          let d = if wide { 0.05 } else { bw * 0.5 };
+          around(r, c, c * d)
+        }
+        (_, "waist_um") => scaled(r, beam.unwrap().waist().x.value_unsafe * 1e6, 0.5, 2.0),
+        ("signal.waist_position_um", _) => around(r, s.signal_waist_position.value_unsafe * 1e6, 1500.0),
+        ("idler.waist_position_um", _) => around(r, s.idler_waist_position.value_unsafe * 1e6, 1500.0),
+        ("pump.average_power_mw", _) => two(r, 1.0, 500.0),
+        ("pump.bandwidth_nm", _) => scaled(r, s.pump_bandwidth.value_unsafe * 1e9, 0.6, 1.6),
+        ("periodic_poling.poling_period_um", _) => match &s.pp {
+          PeriodicPoling::On { period, .. } if !wide => scaled(r, period.value_unsafe.abs() * 1e6, 0.98, 1.02),
+          _ => {
+            let (a, b) = (r.log_range(3.0, 200.0), r.log_range(3.0, 200.0));
+            (a, b)
+          }
+        },
+        _ => two(r, 1.0, 10.0),
+      }
+    }
+  }
+}
+
+fn jsi_of(s: &SPDC, integ: Integrator) -> f64 {
+  let (ws, wi) = (s.signal.frequency(), s.idler.frequency());
+  let a = jsa_raw(ws, wi, s, integ).norm_sqr();
+  if a == 0.0 {
+    0.0
+  } else {
+    a * *(jsi_normalization(ws, wi, s) / JsiNorm::new(1.))
+  }
+}
+
+fn sweep2_case(ctx: &mut Ctx, base: &SPDC, o: &SPDC, detail: &str) {
+  let (integ, iname) = gen_integrator(&mut ctx.rng);
+  let poled = !matches!(base.pp, PeriodicPoling::Off);
+  // the pair
+  let readers: Vec<&'static str> = if poled {
+    vec!["signal.theta_external_deg", "idler.theta_external_deg", "signal.theta_external_deg", "periodic_poling.poling_period_um"]
+  } else {
+    vec!["signal.theta_external_deg", "idler.theta_external_deg"]
+  };
+  let mode = ctx.rng.below(8);
+  let (a1, a2): (Axis, Axis) = if mode < 5 {
+    // reader / what it reads, both orders
+    let rd = *ctx.rng.pick(&readers);
+    let other = *ctx.rng.pick(&reads(rd));
+    if mode < 3 { (Axis::Path(rd), Axis::Path(other)) } else { (Axis::Path(other), Axis::Path(rd)) }
+  } else if mode == 5 {
+    // any two named paths
+    let paths: Vec<&'static str> = ALL_PATHS.iter().cloned().filter(|p| poled || *p != "periodic_poling.poling_period_um").collect();
+    (Axis::Path(*ctx.rng.pick(&paths)), Axis::Path(*ctx.rng.pick(&paths)))
+  } else {
+    // user closures: a reader or a relative step on either axis
+    let rel = [Axis::RelCrystalTheta, Axis::RelSignalWavelength, Axis::RelSignalWaist, Axis::RelLength];
+    let x = *ctx.rng.pick(&rel);
+    let y = if ctx.rng.coin() { Axis::Path(*ctx.rng.pick(&readers)) } else { *ctx.rng.pick(&rel) };
+    if ctx.rng.coin() { (x, y) } else { (y, x) }
+  };
+  let wide = ctx.rng.below(5) == 0;
+  let r1 = axis_range(&mut ctx.rng, a1, base, false);
+  let r2 = axis_range(&mut ctx.rng, a2, base, wide);
+  let (n1, n2) = (ctx.rng.between(2, 3), ctx.rng.between(2, 3));
+  let steps = Steps2D((r1.0, r1.1, n1), (r2.0, r2.1, n2));
+  let named = matches!((a1, a2), (Axis::Path(_), Axis::Path(_)));
+  let mk = |st: Steps2D<f64>| -> SPDCIter {
+    if named {
+      SPDCIter::try_new(base.clone(), a1.name(), a2.name(), st).unwrap()
+    } else {
+      SPDCIter::new(base.clone(), (Box::new(move |s: &mut SPDC, v: f64| apply_axis(a1, s, v)), Box::new(move |s: &mut SPDC, v: f64| apply_axis(a2, s, v))), st)
+    }
+  };
+  let d0 = format!(
+    "{} integ={} route={} prop1={} prop2={} r1=({:e},{:e},{}) r2=({:e},{:e},{})",
+    detail,
+    iname,
+    if named { "try_new" } else { "new(closures)" },
+    a1.name(),
+    a2.name(),
+    r1.0,
+    r1.1,
+    n1,
+    r2.0,
+    r2.1,
+    n2
+  );
+  ctx.count(&format!("sweep2/pair/{}>{}", a1.name(), a2.name()));
+  // normalised first (a working copy left behind by the raw sweep must not matter either way)
+  let norm_first = ctx.rng.coin();
+  let (raw, norm) = if norm_first {
+    let n = guard(|| mk(steps).jsi_values_normalized(integ));
+    let r = guard(|| mk(steps).jsi_values(integ));
+    (r, n)
+  } else {
+    let r = guard(|| mk(steps).jsi_values(integ));
+    let n = guard(|| mk(steps).jsi_values_normalized(integ));
+    (r, n)
+  };
+  let setups: Option<Vec<SPDC>> = guard(|| mk(steps).into_iter().collect());
+  let cells: Vec<(f64, f64)> = steps.into_iter().collect();
+  let (raw, norm, setups) = match (raw, norm, setups) {
+    (Some(a), Some(b), Some(c)) => (a, b, c),
+    _ => {
+      ctx.count("skip/sweep-panic");
+      return;
+    }
+  };
+  let (w0s, w0i) = (o.signal.frequency(), o.idler.frequency());
+  let reference = match guard(|| *(o.joint_spectrum(integ).jsi(w0s, w0i) / spdcalc::JSIUnits::new(1.))) {
+    Some(r) if r.is_normal() && r > 0.0 => r,
+    _ => {
+      ctx.count("skip/reference-zero-or-nonfinite");
+      return;
+    }
+  };
+  let close = |got: f64, want: f64, eps: f64| rel_ok(got, want, eps) || (got - want).abs() <= 1e-200;
+  let len_ok = raw.len() == norm.len() && raw.len() == n1 * n2 && cells.len() == raw.len();
+  // 1. normalised = raw / reference, cell by cell
+  let mut bad: Option<String> = None;
+  if !len_ok {
+    bad = Some(format!("lengths raw={} normalised={} steps={}", raw.len(), norm.len(), n1 * n2));
+  } else {
+    for k in 0..raw.len() {
+      let want = raw[k] / reference;
+      if !close(norm[k], want, 1e-12) && bad.is_none() {
+        bad = Some(format!("cell={} v1={:e} v2={:e} got={:e} want={:e}", k, cells[k].0, cells[k].1, norm[k], want));
+      }
+      if want.abs() > 1e-30 {
+        ctx.count("sweep2/cells-above-1e-30-of-the-optimum");
+      } else {
+        ctx.count("sweep2/cells-negligible");
+      }
+    }
+  }
+  let ok = bad.is_none();
+  ctx.s("C20.sweep", ok, if ok { "sweep2/ok" } else { "sweep2/not-raw-over-reference" }, &format!("{} {}", d0, bad.unwrap_or("-".into())));
+  if !len_ok {
+    return;
+  }
+  // 2. each cell is the setup built individually from a fresh clone of the base (property 1 applied first, then 2)
+  let mut bad: Option<String> = None;
+  for k in 0..raw.len() {
+    let built = guard(|| {
+      let mut f = base.clone();
+      apply_axis(a1, &mut f, cells[k].0);
+      apply_axis(a2, &mut f, cells[k].1);
+      jsi_of(&f, integ)
+    });
+    if let Some(v) = built {
+      let want = v / reference;
+      if !close(norm[k], want, 1e-9) && bad.is_none() {
+        bad = Some(format!("cell={} v1={:e} v2={:e} got={:e} want={:e}", k, cells[k].0, cells[k].1, norm[k], want));
+      }
+      if !close(raw[k], v, 1e-9) && bad.is_none() {
+        bad = Some(format!("raw cell={} v1={:e} v2={:e} got={:e} want={:e}", k, cells[k].0, cells[k].1, raw[k], v));
+      }
+    }
+  }
+  let ok = bad.is_none();
+  ctx.s("C20.sweep", ok, if ok { "sweep2/cell-ok" } else { "sweep2/cell-differs-from-individually-built-setup" }, &format!("{} {}", d0, bad.unwrap_or("-".into())));
+  // 3. a one-cell sweep of the last and of one other cell gives that cell's value (no dependence on the cells before)
+  let mut bad: Option<String> = None;
+  for k in [raw.len() - 1, ctx.rng.below(raw.len())] {
+    let one = Steps2D((cells[k].0, cells[k].0, 1), (cells[k].1, cells[k].1, 1));
+    if let Some(v) = guard(|| mk(one).jsi_values_normalized(integ)) {
+      if !(v.len() == 1 && close(v[0], norm[k], 1e-12)) && bad.is_none() {
+        bad = Some(format!("cell={} v1={:e} v2={:e} in-sweep={:e} alone={:e}", k, cells[k].0, cells[k].1, norm[k], v.get(0).cloned().unwrap_or(f64::NAN)));
+      }
+    }
+  }
+  let ok = bad.is_none();
+  ctx.s("C20.sweep", ok, if ok { "sweep2/alone-ok" } else { "sweep2/cell-depends-on-the-cells-before" }, &format!("{} {}", d0, bad.unwrap_or("-".into())));
+
+  // K: as coded from the raw values of the layer below at the swept setups (fresh clone per cell)
+  let ca = jsa_raw(w0s, w0i, o, integ);
+  let cn = *(jsi_normalization(w0s, w0i, o) / JsiNorm::new(1.));
+  let mut args = format!("{} {} {} {} {}", fl(fr(w0s)), fl(fr(w0i)), fl(ca.re), fl(ca.im), fl(cn));
+  let mut finite = ca.re.is_finite() && ca.im.is_finite() && cn.is_finite();
+  for st in setups.iter() {
+    let (ws, wi) = (st.signal.frequency(), st.idler.frequency());
+    let a = jsa_raw(ws, wi, st, integ);
+    let n = *(jsi_normalization(ws, wi, st) / JsiNorm::new(1.));
+    finite = finite && a.re.is_finite() && a.im.is_finite() && n.is_finite();
+    args += &format!(" | {} {} {} {} {}", fl(fr(ws)), fl(fr(wi)), fl(a.re), fl(a.im), fl(n));
+  }
+  if finite {
+    let outs = format!("{} {}", fls(&raw), fls(&norm));
+    ctx.k("sweep", &args, outs.trim());
+  }
+}
+
 pub fn run(ctx: &mut Ctx) {
   let opts = GenOpts {
     waist: (20.0, 1000.0),
@@ -1182,6 +1854,12 @@ pub fn run(ctx: &mut Ctx) {
     norm_case(ctx, &s, &o, &meta, &detail);
     if done % 3 == 0 {
       sweep_case(ctx, &s, &o, &detail);
+    }
+    if done % 3 == 1 {
+      sweep2_case(ctx, &s, &o, &detail);
+    }
+    if done % 2 == 1 {
+      edited_case(ctx, &s, &o, &detail);
     }
     if done % 2 == 0 || done <= 3 {
       seq_case(ctx, &s, &o, &detail, &mut history);
